@@ -126,14 +126,21 @@ def dyHalf (x : Dyadic) : Dyadic := x >>> (1 : Int)
 /-- `(a + b) / 2` as SQLite computes it on doubles (the sum is rounded, halving is exact) -/
 def mid53 (a b : Dyadic) : Dyadic := dyHalf (round53 (a + b))
 
-/-! ### floats as Go parses and prints them, on the modelled domain -/
+/-! ### floats as Go parses and prints them
+
+`strconv.ParseFloat(s, 64)` and `strconv.FormatFloat(x, 'f', -1, 64)` on every finite, normal
+float64: a decimal text denotes a rational number, `ParseFloat` returns the double nearest to it
+(ties to even, `ratRound53`), and `FormatFloat` prints the SHORTEST decimal that reads back as the
+same double (the closest one when several have that length), without exponent. Doubles are exact
+dyadic rationals with an odd part below `2^53` and a leading bit between `2^-1022` and `2^1023`.
+Outside the decided domain (`unknown` / `none`): hexadecimal floats, `inf`/`nan`, underscores,
+exponents beyond ±400, results that overflow or are subnormal, and negative zero. -/
 
 /-- what `strconv.ParseFloat(s, 64)` makes of a stored text, as far as the model decides it -/
 inductive FParse where
   | invalid                 -- Go reports a syntax error
   | val (d : Dyadic)        -- Go returns exactly this number
-  | unknown                 -- outside the modelled domain (exponents, hex floats, inf/nan, underscores,
-                            -- decimals that are not exactly representable, negative zero)
+  | unknown                 -- outside the modelled domain
 deriving DecidableEq
 
 def isOneOf (cs : List UInt8) (c : UInt8) : Bool := cs.contains c
@@ -157,34 +164,77 @@ def splitSign (b : Bytes) : Bool × Bytes :=
   | 43 :: r => (false, r)
   | r => (false, r)
 
-/-- `[+-]? ( D+ ( . D* )? | . D+ )`: sign, integer digits, fraction digits -/
-def plainDecimal (b : Bytes) : Option (Bool × Bytes × Bytes) :=
+/-- `p * 2^t / q` as quotient, remainder and the denominator the remainder refers to -/
+def scaleDiv (p q : Nat) (t : Int) : Nat × Nat × Nat :=
+  if t ≥ 0 then
+    let n := p * 2 ^ t.toNat
+    (n / q, n % q, q)
+  else
+    let d := q * 2 ^ (-t).toNat
+    (p / d, p % d, d)
+
+/-- The float64 nearest to the positive rational `p / q` (`p, q > 0`), ties to even; `none` when
+the result would overflow or be subnormal. -/
+def ratRound53 (p q : Nat) : Option Dyadic :=
+  -- p / q lies strictly between 2^(bp-bq-1) and 2^(bp-bq+1)
+  let t0 : Int := 53 - (natBits p : Int) + (natBits q : Int)
+  let t : Int := if (scaleDiv p q t0).1 ≥ 2 ^ 53 then t0 - 1 else t0
+  let m := (scaleDiv p q t).1
+  let r := (scaleDiv p q t).2.1
+  let d := (scaleDiv p q t).2.2
+  -- 2^52 ≤ m < 2^53 and p / q = (m + r / d) / 2^t
+  let m' := if 2 * r > d || (2 * r == d && m % 2 == 1) then m + 1 else m
+  let top : Int := (if m' ≥ 2 ^ 53 then 53 else 52) - t        -- exponent of the leading bit
+  if top < -1022 || top > 1023 then none
+  else some (Dyadic.ofIntWithPrec (m' : Int) t)
+
+/-- `[+-]? ( D+ ( . D* )? | . D+ ) ( [eE] [+-]? D+ )?`: sign, integer digits, fraction digits,
+exponent -/
+def decimalParts (b : Bytes) : Option (Bool × Bytes × Bytes × Int) :=
   let neg := (splitSign b).1
   let r := (splitSign b).2
   let ip := r.takeWhile isDigit
   let rest := r.dropWhile isDigit
-  match rest with
-  | [] => if ip.isEmpty then none else some (neg, ip, [])
-  | 46 :: fr =>
-    if fr.all isDigit && !(ip.isEmpty && fr.isEmpty) then some (neg, ip, fr) else none
-  | _ => none
+  let fracAndRest : Option (Bytes × Bytes) :=
+    match rest with
+    | 46 :: fr => some (fr.takeWhile isDigit, fr.dropWhile isDigit)
+    | _ => some ([], rest)
+  match fracAndRest with
+  | none => none
+  | some (fr, tail) =>
+    if ip.isEmpty && fr.isEmpty then none
+    else
+      match tail with
+      | [] => some (neg, ip, fr, 0)
+      | c :: ex =>
+        if c == 101 || c == 69 then
+          let eneg := (splitSign ex).1
+          let ed := (splitSign ex).2
+          if ed.isEmpty || !ed.all isDigit then none
+          else
+            let e : Int := digitsVal ed 0
+            some (neg, ip, fr, if eneg then -e else e)
+        else none
 
+/-- `strconv.ParseFloat(string(b), 64)` -/
 def parseFloatDec (b : Bytes) : FParse :=
   if !b.all floatAlphabet then .invalid
-  else if b.all (fun c => isDigit c || c == 43 || c == 45 || c == 46) then
-    match plainDecimal b with
+  else if b.all (fun c => isDigit c || c == 43 || c == 45 || c == 46 || c == 101 || c == 69) then
+    match decimalParts b with
     | none => .invalid
-    | some (neg, ip, fr) =>
+    | some (neg, ip, fr, e) =>
       let n := digitsVal (ip ++ fr) 0
-      let f := fr.length
-      if n % pow5 f != 0 then .unknown          -- not a dyadic rational
+      if n == 0 then (if neg then .unknown else .val .zero)     -- negative zero is not modelled
+      else if e > 400 || e < -400 then .unknown                  -- overflow is an error, underflow is 0 or subnormal
       else
-        let m := n / pow5 f                     -- value = m / 2^f
-        if m == 0 then (if neg then .unknown else .val .zero)
-        else if oddPart m ≥ 2 ^ 53 then .unknown
-        else .val (Dyadic.ofIntWithPrec (if neg then -(m : Int) else m) f)
-  -- no x X i I n N, but one of a b c d f A B C D F t T y Y
-  else if !b.any (isOneOf [120, 88, 105, 73, 110, 78]) && b.any (isOneOf [97, 98, 99, 100, 102, 65, 66, 67, 68, 70, 116, 84, 121, 89]) then .invalid
+        let e' : Int := e - fr.length
+        let p := if e' ≥ 0 then n * 10 ^ e'.toNat else n
+        let q := if e' ≥ 0 then 1 else 10 ^ (-e').toNat
+        match ratRound53 p q with
+        | none => .unknown
+        | some d => .val (if neg then -d else d)
+  -- no x X i I n N, but one of a b c d f A B C D F t T y Y p P
+  else if !b.any (isOneOf [120, 88, 105, 73, 110, 78]) && b.any (isOneOf [97, 98, 99, 100, 102, 65, 66, 67, 68, 70, 116, 84, 121, 89, 112, 80]) then .invalid
   else .unknown
 
 /-- `core.Value.Float`: empty text counts as zero -/
@@ -195,27 +245,66 @@ def stripTrailingZeros (n : Nat) : Nat :=
 termination_by n
 decreasing_by omega
 
-/-- `strconv.FormatFloat(x, 'f', -1, 64)` for a number whose decimal expansion has at most 15
-significant digits (then the shortest text that reads back as `x` is the exact expansion);
-`none` outside that domain. -/
+/-- drop factors of ten from the digits while the exponent is negative: `(120, -2) ↦ (12, -1)` -/
+def normDec (fuel : Nat) (D : Nat) (q : Int) : Nat × Int :=
+  match fuel with
+  | 0 => (D, q)
+  | fuel + 1 => if q < 0 && D % 10 == 0 && D != 0 then normDec fuel (D / 10) (q + 1) else (D, q)
+
+/-- `%f` of the decimal `D * 10^q` -/
+def renderDec (D : Nat) (q : Int) : Bytes :=
+  let ds := natDigits D
+  if q ≥ 0 then (if D == 0 then [48] else ds ++ List.replicate q.toNat 48)
+  else
+    let f := (-q).toNat
+    if ds.length > f then ds.take (ds.length - f) ++ [46] ++ ds.drop (ds.length - f)
+    else [48, 46] ++ List.replicate (f - ds.length) 48 ++ ds
+
+/-- the least `j ≤ fuel` with `a * 10^j ≥ b` -/
+def negExp10 (fuel : Nat) (a b : Nat) (j : Nat) : Nat :=
+  match fuel with
+  | 0 => j
+  | fuel + 1 => if a ≥ b then j else negExp10 fuel (a * 10) b (j + 1)
+
+/-- the decimals with `n` significant digits next to `a / b > 0`, the closer one first, as
+`(digits, exponent)`; `e10` is the decimal exponent of `a / b` -/
+def decCandidates (a b : Nat) (e10 : Int) (n : Nat) : List (Nat × Int) :=
+  let q : Int := e10 - n + 1
+  let num := if q ≥ 0 then a else a * 10 ^ (-q).toNat
+  let den := if q ≥ 0 then b * 10 ^ q.toNat else b
+  let lo := num / den
+  let r := num % den
+  if r == 0 then [(lo, q)]
+  else if 2 * r < den then [(lo, q), (lo + 1, q)]
+  else if 2 * r > den then [(lo + 1, q), (lo, q)]
+  else if lo % 2 == 0 then [(lo, q), (lo + 1, q)] else [(lo + 1, q), (lo, q)]
+
+/-- every candidate text for `|x| = a / b`, shortest first -/
+def floatCandidates (a b : Nat) : List Bytes :=
+  let e10 : Int :=
+    if a ≥ b then ((natDigits (a / b)).length : Int) - 1 else -((negExp10 400 a b 0 : Nat) : Int)
+  (List.range 17).flatMap (fun i =>
+    (decCandidates a b e10 (i + 1)).map (fun c =>
+      let c' := normDec 400 c.1 c.2
+      renderDec c'.1 c'.2))
+
+/-- `strconv.FormatFloat(x, 'f', -1, 64)`: the first candidate — fewest digits, then closest —
+that `ParseFloat` reads back as `x`. `none`: `x` is not a normal float64 (or no candidate with at
+most 17 digits reads back, which does not happen for a float64). -/
 def formatFloatDec (x : Dyadic) : Option Bytes :=
   match x with
   | .zero => some [48]
   | .ofOdd n k _ =>
     let sign : Bytes := if n < 0 then [45] else []
-    if k ≤ 0 then
-      let N := n.natAbs * 2 ^ (-k).toNat
-      -- the odd part must fit in 53 bits (10^23 has one significant digit and is not a float64)
-      if n.natAbs < 2 ^ 53 && (natDigits (stripTrailingZeros N)).length ≤ 15 then some (sign ++ natDigits N) else none
-    else
-      let kk := k.toNat
-      let ds := natDigits (n.natAbs * pow5 kk)      -- value = this / 10^k, last digit is 5
-      if ds.length > 15 then none
-      else if ds.length ≤ kk then
-        some (sign ++ [48, 46] ++ List.replicate (kk - ds.length) 48 ++ ds)
-      else
-        some (sign ++ ds.take (ds.length - kk) ++ [46] ++ ds.drop (ds.length - kk))
+    let a := if k ≥ 0 then n.natAbs else n.natAbs * 2 ^ (-k).toNat
+    let b := if k ≥ 0 then 2 ^ k.toNat else 1
+    match (floatCandidates a b).find? (fun t => parseFloatDec (sign ++ t) == .val x) with
+    | some t => some (sign ++ t)
+    | none => none
 
+/-- float64 addition of two float64 values: the exact sum, rounded (overflow and subnormal sums
+are caught by `formatFloatDec`, which prints only normal values) -/
+def f64add (x d : Dyadic) : Dyadic := round53 (x + d)
 
 /-! ### small list helpers -/
 
